@@ -98,7 +98,8 @@ type csvRecordsWriter struct {
 }
 
 func (w *csvRecordsWriter) Write(record []string) error {
-	w.records = append(w.records, record)
+	// the reader may reuse the backing array of the record (csv.Reader.ReuseRecord): keep a copy
+	w.records = append(w.records, append([]string(nil), record...))
 
 	return nil
 }
